@@ -1,4 +1,5 @@
 //! Generic tape-driven differential driver shared by C01, C09, C11, C12.
+use crate::ast::BlockStmt;
 use crate::diff::*;
 use crate::gen::*;
 use crate::refint::{RefObs, RefOutcome};
@@ -13,6 +14,26 @@ pub struct DiffCfg {
     pub cases: u32,
     pub max_len: usize,
     pub seed: u64,
+    /// print a share of the programs under a generated layout (line breaks, comments, optional separators, redundant
+    /// parentheses, `a op= e` sugar, `anders als`) instead of canonically, driven by the tape bytes the generator left
+    pub layout: bool,
+}
+
+/// the text of a program: canonical, or (when the driver varies layouts and the first unused tape byte says so) laid out
+/// by the remaining tape bytes
+fn render(prog: &BlockStmt, layout_tape: Option<&[u8]>) -> String {
+    match layout_tape {
+        Some(lt) => crate::printer::print_layout(prog, &mut crate::tape::Tape::new(lt)).0,
+        None => crate::printer::print_canonical(prog),
+    }
+}
+
+fn layout_part(cfg: &DiffCfg, tape: &[u8], used: usize) -> Option<Vec<u8>> {
+    if cfg.layout && tape.get(used).map(|b| *b < 96).unwrap_or(false) {
+        Some(tape[used + 1..].to_vec())
+    } else {
+        None
+    }
 }
 
 pub fn hex(b: &[u8]) -> String {
@@ -32,9 +53,18 @@ pub fn run_diff_tapes(r: &mut Report, cfg: &DiffCfg, nontrivial: &dyn Fn(&RefObs
     let prop = cfg.prop;
     let profile = cfg.profile.clone();
     let fail = run_tapes(cfg.seed, cfg.cases, cfg.max_len, |tape, shrinking| {
-        let (prog, fault) = gen_program(tape, &profile);
+        let (prog, fault, used) = gen_program_used(tape, &profile);
         let started = std::time::Instant::now();
-        let out = diff_program(&prog);
+        let lt = layout_part(cfg, tape, used);
+        let out = diff_source(&prog, render(&prog, lt.as_deref()));
+        if !shrinking {
+            if lt.is_some() {
+                r.count("text:generated-layout");
+            }
+            if out.tree_differs {
+                r.count("text:parsed-as-another-tree");
+            }
+        }
         if started.elapsed().as_secs_f64() > 1.5 && std::env::var("NLV_SLOW").is_ok() {
             // diagnostics only: never part of a verdict
             eprintln!("SLOW {:.1}s {}", started.elapsed().as_secs_f64(), out.src);
@@ -102,23 +132,26 @@ pub fn run_diff_tapes(r: &mut Report, cfg: &DiffCfg, nontrivial: &dyn Fn(&RefObs
         }
     });
     if let Some((tape, _)) = fail {
-        let (prog, _) = gen_program(&tape, &profile);
-        let out = diff_program(&prog);
-        if let Verdict::Violation { class, .. } = out.verdict {
-            // AST-level minimisation behind proptest's tape shrinking
+        let (prog, _, used) = gen_program_used(&tape, &profile);
+        let lt = layout_part(cfg, &tape, used);
+        let first = diff_source(&prog, render(&prog, lt.as_deref()));
+        if let Verdict::Violation { class, .. } = &first.verdict {
+            // AST-level minimisation behind proptest's tape shrinking (same way of printing)
             let cls = class.clone();
             let small = crate::minimize::minimize(
                 &prog,
-                &mut |p| matches!(diff_program(p).verdict, Verdict::Violation { class: c, .. } if c == cls),
+                &mut |p| matches!(diff_source(p, render(p, lt.as_deref())).verdict, Verdict::Violation { class: c, .. } if c == cls),
                 3000,
             );
-            let out = diff_program(&small);
+            let out = diff_source(&small, render(&small, lt.as_deref()));
+            // (the minimised program is reported only if it still fails; otherwise the one the search found)
+            let (out, tree) = if matches!(out.verdict, Verdict::Violation { .. }) { (out, format!("{small:?}")) } else { (first, format!("{prog:?}")) };
             if let Verdict::Violation { class, expected, observed } = out.verdict {
                 r.violation(Violation {
                     property: prop.into(),
                     driver: cfg.driver.into(),
                     class,
-                    case: json!({"src": out.src, "tape": hex(&tape), "profile": profile.name}),
+                    case: json!({"src": out.src, "tree": tree, "tape": hex(&tape), "profile": profile.name}),
                     expected,
                     observed,
                 });
@@ -130,7 +163,14 @@ pub fn run_diff_tapes(r: &mut Report, cfg: &DiffCfg, nontrivial: &dyn Fn(&RefObs
 /// Replays a `{"src": …}` case against the reference interpreter
 pub fn replay_src(prop: &str, case: &serde_json::Value) -> Option<Violation> {
     let src = case.get("src")?.as_str()?;
-    match diff_text(src) {
+    // the tree the text was printed from, if recorded: the text is judged against it (and not against whatever the
+    // implementation's parser makes of the text now)
+    let intended = case.get("tree").and_then(|t| t.as_str()).and_then(|t| crate::dbgparse::parse_debug_block(t).ok());
+    let run = match intended {
+        Some(prog) => Ok(diff_source(&prog, src.to_string())),
+        None => diff_text(src),
+    };
+    match run {
         Ok(out) => match out.verdict {
             Verdict::Violation { class, expected, observed } => Some(Violation {
                 property: prop.into(),
